@@ -161,7 +161,7 @@ def run(h, case):
     elif fn == 'endpoint_fit':
         x = [h.real('x%d' % i) for i in range(n)]
         y = [h.real('y%d' % i) for i in range(n)]
-        h.assume(x[0] < x[-1], 'first x < last x')
+        h.assume(x[0] != x[-1], 'first x != last x (a vertical chord has no slope)')
         lf = h.L.linear_fit
         b, m = lf.linear_fit(h.array(x), h.array(y))
         b2, m2 = lf.linear_fit_points(h.array([[a, c] for a, c in zip(x, y)]))
